@@ -98,10 +98,13 @@ Definition requested_axes (k : nat) (data : tframe) (columns : list name) : list
   end.
 
 (* _generate_scatter_2d_plot (k = 2) / _generate_scatter_3d_plot (k = 3).
-   Returns the CALLER'S `columns` list as it is after the call, and the outcome. *)
+   Returns the CALLER'S `columns` list as it is after the call, and the outcome.
+   History (finding F16b, repaired in the source): the helpers used to do `columns.append('Data')` on the caller's
+   list, so the first component was `columns ++ [data_col]` and a second identical call raised ErrColumnCount; they now
+   build a new list `list(columns) + ['Data']`, the caller's list is returned unchanged. *)
 Definition generate_scatter (k : nat) (data : tframe) (columns : list name)
   : list name * (perr + figure) :=
-  let caller_columns := match columns with [] => [] | _ => columns ++ [data_col] end in
+  let caller_columns := columns in
   let cols := match columns with [] => tcols data | _ => columns ++ [data_col] end in
   if negb (Nat.eqb (length cols) (S k)) then (caller_columns, inl ErrColumnCount)
   else
